@@ -224,6 +224,12 @@ def hasSpecificTag(a, tag):
         res = tag.replace("<<<", "").replace(">>>", "") in a
     return res
 
+def hasControlTag(a, tag):
+    # <<<IF x>>>, <<<ELSEIF x>>>, <<<ELSE>>>, <<<ENDIF>>> : the keyword is the first word of a tag of the line, not
+    # just some letters of it (a line like 'NOTIFY_<<<Tag>>>' is no IF).
+    keyword = cleanTag(tag)
+    return any(body.split(" ", 1)[0] == keyword for body in tag_pattern.findall(a))
+
 def hasDefault(a, delimiter = "="):
     b = tag_pattern.findall(a)
     r = any(delimiter in string for string in b)
@@ -661,9 +667,9 @@ class CGenerator:
             # this should be called last, so at this point any tags should be user defined.
             for line in lines:
                 if is_processing_if:
-                    has_elseif       = hasSpecificTag(line, __TAG_ELSEIF__)
-                    has_else         = hasSpecificTag(line, __TAG_ELSE__) and not has_elseif
-                    has_endif        = hasSpecificTag(line, __TAG_ENDIF__)
+                    has_elseif       = hasControlTag(line, __TAG_ELSEIF__)
+                    has_else         = hasControlTag(line, __TAG_ELSE__) and not has_elseif
+                    has_endif        = hasControlTag(line, __TAG_ENDIF__)
                     if not has_elseif and not has_else and not has_endif:
                         line = replaceUserTags(line, dict_key_vals) # still processing if ...
                     if has_elseif and not has_else and not has_endif:
@@ -683,7 +689,7 @@ class CGenerator:
                     can_append_line = True
                     has_tag      = hasTag(line)
                     has_for      = hasSpecificTag(line, __TAG_FOR_BEGIN__)
-                    has_if       = hasSpecificTag(line, __TAG_IF__)
+                    has_if       = hasControlTag(line, __TAG_IF__)
                     if has_tag and not has_for and not has_if:
                         line = replaceUserTags(line, dict_key_vals)
                     elif has_tag and has_for and not has_if:
